@@ -348,3 +348,110 @@ Proof.
     split; [auto|]. split; [eapply CPos_none; eauto|eapply CPos_none; eauto].
 Qed.
 End Joint3.
+
+(* ---- frames ---------------------------------------------------------------------- *)
+Lemma Pos_ext h v h' v' c p :
+  (forall k, peek h' v' k = peek h v k /\ isnull h' v' k = isnull h v k) -> Pos h v c p -> Pos h' v' c p.
+Proof.
+  intro E. destruct c as [k|]; simpl.
+  - intros (P1 & P2 & P3). split; [auto|]. split; [rewrite (proj2 (E k)); auto|].
+    intros i Hi. rewrite (proj1 (E i)). auto.
+  - intros P i Hi. rewrite (proj1 (E i)). auto.
+Qed.
+Lemma CPos_ext t n w c V V' p : (forall i, V i = V' i) -> CPos t n w c V p -> CPos t n w c V' p.
+Proof.
+  intro E. destruct c as [u cur|d pos]; simpl.
+  - intros (N & Hu & Hd & HV & P). repeat split; auto. intro i. rewrite <- E. auto.
+  - intros (Hd & HV & H0 & H1 & H2). split; [auto|]. split; [intros i Hi; rewrite <- E; auto|].
+    split; [auto|]. split.
+    + intro H. destruct (H1 H) as (X & Y). split; auto. intros i Hi. rewrite <- E. auto.
+    + intros H i Hi. rewrite <- E. auto.
+Qed.
+(* an operand's iterator does not see the receiver's write *)
+Lemma CPos_frame t n w w1 c V p :
+  length (vecs w1) = length (vecs w) -> (forall u, dim (getv w1 u) = dim (getv w u)) ->
+  (forall u k, u <> t -> peek (hp w1) (getv w1 u) k = peek (hp w) (getv w u) k /\
+                         isnull (hp w1) (getv w1 u) k = isnull (hp w) (getv w u) k) ->
+  CPos t n w c V p -> CPos t n w1 c V p.
+Proof.
+  intros Hl Hd Hf. destruct c as [u cur|d pos]; simpl; auto.
+  intros (N & Hu & Hdim & HV & P). split; [auto|]. split; [unfold has in *; lia|].
+  split; [rewrite Hd; auto|]. split.
+  - intro i. rewrite (proj1 (Hf u i N)). auto.
+  - eapply Pos_ext; [|exact P]. intro k. apply Hf. auto.
+Qed.
+
+(* ---- the loop: r[idx] := f(a[idx], b[idx]) at every visit ------------------------ *)
+Section Loop3.
+Variable t : nat.
+Variable n : Z.
+Variables A B : Z -> Z.
+Variable f : Z -> Z -> Z.
+Hypothesis f00 : f 0 0 = 0.
+
+(* the state at the loop head: what the last Next() left *)
+Definition Head (w : world) (j : joint3) (p : Z) : Prop :=
+  (kok j = false /\ forall i, p <= i -> peek (hp w) (getv w t) i = 0 /\ A i = 0 /\ B i = 0) \/
+  (kok j = true /\ p <= kidx j < n /\
+   (forall i, p <= i < kidx j -> peek (hp w) (getv w t) i = 0 /\ A i = 0 /\ B i = 0) /\
+   jval (ks2 j) = A (kidx j) /\ jval (ks3 j) = B (kidx j) /\
+   (forall l, ks1 j = Some l -> lookup (kidx j) (vals (getv w t)) = Some l) /\
+   J3 t n A B w j (kidx j + 1)).
+
+Lemma next_Head w j p :
+  J3 t n A B w j p ->
+  exists w' j', joint3_next w t j = Some (w', j') /\ Qw w w' /\ G t w' /\ Head w' j' p.
+Proof.
+  intro HJ. destruct (joint3_next_spec t n A B w j p HJ) as (w' & j' & E & HQ & HG & [X|X]).
+  - exists w', j'. split; [auto|]. split; [auto|]. split; [auto|]. left.
+    destruct X as (X1 & X2). split; auto. intros i Hi. rewrite (Qw_peek w w' t i HQ). auto.
+  - exists w', j'. split; [auto|]. split; [auto|]. split; [auto|]. right.
+    destruct X as (X1 & X2 & X3 & X4 & X5 & X6 & X7).
+    split; [auto|]. split; [auto|]. split; [|auto].
+    intros i Hi. rewrite (Qw_peek w w' t i HQ). auto.
+Qed.
+
+Lemma map3_loop_spec : forall fuel w j p,
+  G t w -> dim (getv w t) = n -> 0 <= p -> Head w j p ->
+  (forall i, 0 <= i < p -> peek (hp w) (getv w t) i = f (A i) (B i)) ->
+  (Z.to_nat (n - p) < fuel)%nat ->
+  exists w', map3_loop f fuel w t j = Some (w', true) /\ G t w' /\ dim (getv w' t) = n /\
+    length (vecs w') = length (vecs w) /\
+    (forall i, 0 <= i < n -> peek (hp w') (getv w' t) i = f (A i) (B i)) /\
+    (forall u k, u <> t -> peek (hp w') (getv w' u) k = peek (hp w) (getv w u) k) /\
+    (forall u, dim (getv w' u) = dim (getv w u)).
+Proof.
+  induction fuel as [|fu IH]; intros w j p HG Hn Hp HH HD Hf; [lia|].
+  destruct HH as [(K & Z0)|(K & Hi & Zg & VA & VB & HS & HJ)].
+  - exists w. cbn [map3_loop]. rewrite K. split; [auto|]. split; [auto|]. split; [auto|]. split; [auto|].
+    split; [|auto]. intros i Hi. destruct (Z_lt_ge_dec i p) as [L|L]; [apply HD; lia|].
+    destruct (Z0 i) as (X & Y & Z1); [lia|]. rewrite X, Y, Z1. auto.
+  - cbn [map3_loop]. rewrite K.
+    destruct (wr_spec t w (kidx j) (ks1 j) (f (jval (ks2 j)) (jval (ks3 j))) HG) as
+      (w1 & E1 & G1 & L1 & D1 & P1 & F1 & F2); [lia|exact HS|].
+    rewrite E1.
+    assert (HJ1 : J3 t n A B w1 j (kidx j + 1)).
+    { destruct HJ as (_ & _ & Hp' & PP & C2 & C3). unfold J3.
+      split; [auto|]. split; [rewrite D1; auto|]. split; [auto|]. split.
+      - destruct (k1 j) as [k|]; simpl in *.
+        + destruct PP as (Q1 & Q2 & Q3). split; [auto|]. split.
+          * rewrite (proj2 (F1 k ltac:(lia))). auto.
+          * intros i Hi'. rewrite (proj1 (F1 i ltac:(lia))). auto.
+        + intros i Hi'. rewrite (proj1 (F1 i ltac:(lia))). auto.
+      - split; eapply CPos_frame; eauto. }
+    destruct (next_Head w1 j (kidx j + 1) HJ1) as (w2 & j' & E2 & Q2 & G2 & H2).
+    rewrite E2.
+    destruct (IH w2 j' (kidx j + 1)) as (w' & E3 & G3 & D3 & L3 & R3 & F3 & DD3); auto.
+    + rewrite (Qw_dim w1 w2 t Q2), D1. auto.
+    + lia.
+    + intros i Hi'. rewrite (Qw_peek w1 w2 t i Q2).
+      destruct (Z.eq_dec i (kidx j)) as [->|N].
+      * rewrite P1, VA, VB. auto.
+      * rewrite (proj1 (F1 i N)). apply HD. lia.
+    + lia.
+    + exists w'. split; [auto|]. split; [auto|]. split; [auto|].
+      split; [destruct Q2 as (_ & X & _); lia|]. split; [auto|]. split.
+      * intros u k N. rewrite F3 by auto. rewrite (Qw_peek w1 w2 u k Q2). apply F2. auto.
+      * intro u. rewrite DD3, (Qw_dim w1 w2 u Q2). auto.
+Qed.
+End Loop3.
